@@ -88,6 +88,8 @@ def _worker(args):
         res = mod.run_unit(unit)
     except Exception:
         return {"crash": traceback.format_exc(), "unit": unit}
+    for v in res.get("violations", []):
+        v["unit"] = unit
     return res
 
 
@@ -115,12 +117,33 @@ def write_evidence(prop, payload):
 
 
 def confirm_by_replay(prop, path, clause, sig):
-    """Re-run the witness twice in fresh interpreters; both must reproduce."""
+    """Re-run the witness twice in fresh interpreters; both must reproduce.  If the witness alone does
+    not reproduce, the whole work unit that produced it is re-run from a fresh interpreter (the violation
+    then needs the calls that preceded it inside the unit - a dependence on process history that is
+    itself a defect); the replay file is marked accordingly."""
+    ok, seen = _confirm(prop, path, clause, False)
+    if ok:
+        return ok, seen
+    ok2, seen2 = _confirm(prop, path, clause, True)
+    if ok2:
+        with open(path) as f:
+            rec = json.load(f)
+        rec["replay_mode"] = "unit"
+        rec["note"] = ("the witness does not fail when executed alone in a fresh interpreter; it fails when the work unit "
+                       "below is executed from a fresh interpreter: the result depends on earlier calls in the same process")
+        rec["replay"] = "./vcheck %s --replay %s" % (prop, path)
+        with open(path, "w") as f:
+            json.dump(rec, f, indent=1)
+        return ok2, seen2
+    return False, seen + seen2
+
+
+def _confirm(prop, path, clause, unit_mode):
     vcheck = os.path.join(ROOT, "vcheck")
     seen = []
     for _ in range(2):
         p = subprocess.run(
-            [vcheck, prop, "--replay", path],
+            [vcheck, prop, "--replay", path] + (["--unit"] if unit_mode else []),
             stdout=subprocess.PIPE,
             stderr=subprocess.STDOUT,
             text=True,
@@ -134,11 +157,18 @@ def confirm_by_replay(prop, path, clause, sig):
     return all(s[1] for s in seen), seen
 
 
-def do_replay(prop, mod, path):
+def do_replay(prop, mod, path, unit_mode=False):
     with open(path) as f:
         rec = json.load(f)
-    vs = mod.replay(rec["witness"])
     want = rec.get("clause")
+    if unit_mode or rec.get("replay_mode") == "unit":
+        if rec.get("unit") is None:
+            print("NOT-REPRODUCED property=%s clause=%s replay=%s (no work unit recorded)" % (prop, want, path))
+            return 0
+        res = mod.run_unit(rec["unit"])
+        vs = [v for v in res.get("violations", []) if v["clause"] == want and (v.get("sig") or "unclassified") == rec.get("sig")]
+    else:
+        vs = mod.replay(rec["witness"])
     hit = [v for v in vs if v["clause"] == want] or vs
     if not hit:
         print("NOT-REPRODUCED property=%s clause=%s replay=%s" % (prop, want, path))
@@ -159,6 +189,7 @@ def main(argv):
     prop = argv[0]
     tier = os.environ.get("VERIF_TIER", "quick")
     replay_path = None
+    unit_mode = False
     rest = argv[1:]
     while rest:
         a = rest.pop(0)
@@ -166,6 +197,8 @@ def main(argv):
             tier = a
         elif a == "--replay":
             replay_path = rest.pop(0)
+        elif a == "--unit":
+            unit_mode = True
         else:
             print("unknown argument %r" % a)
             return 2
@@ -182,7 +215,7 @@ def main(argv):
         return 2
 
     if replay_path:
-        return do_replay(prop, mod, replay_path)
+        return do_replay(prop, mod, replay_path, unit_mode)
 
     t0 = time.time()
     units = list(mod.units(tier, seed))
@@ -191,111 +224,129 @@ def main(argv):
     jobs = int(os.environ.get("VERIF_JOBS", "0")) or (os.cpu_count() or 4)
     jobs = max(1, min(jobs, len(units)))
 
-    merged = {
-        "evals": 0,
-        "nontrivial": 0,
-        "nontrivial_keys": set(),
-        "outcomes": collections.Counter(),
-        "states": 0,
-        "state_keys": set(),
-        "transitions": 0,
-        "traces": 0,
-        "max_depth": 0,
-        "samples": [],
-        "extra": collections.Counter(),
-        "capped": False,
-    }
-    groups = {}  # (clause, sig) -> {"count", "best"}
-    crashes = []
-
-    def absorb(res):
-        if "crash" in res:
-            crashes.append(res)
-            return
-        merged["evals"] += res.get("evals", 0)
-        nt = res.get("nontrivial", 0)
-        if isinstance(nt, (set, frozenset, list)):
-            merged["nontrivial_keys"].update(nt)
-        else:
-            merged["nontrivial"] += nt
-        merged["outcomes"].update(res.get("outcomes", {}))
-        st = res.get("states", 0)
-        if isinstance(st, (set, frozenset, list)):
-            merged["state_keys"].update(st)
-        else:
-            merged["states"] += st
-        merged["transitions"] += res.get("transitions", 0)
-        merged["traces"] += res.get("traces", 0)
-        merged["max_depth"] = max(merged["max_depth"], res.get("max_depth", 0))
-        merged["extra"].update(res.get("extra", {}))
-        merged["capped"] = merged["capped"] or bool(res.get("capped"))
-        if len(merged["samples"]) < 400:
-            merged["samples"].extend(res.get("samples", [])[:3])
-        for v in res.get("violations", []):
-            key = (v["clause"], v.get("sig") or "unclassified")
-            g = groups.setdefault(key, {"count": 0, "best": None})
-            g["count"] += v.get("count", 1)
-            b = g["best"]
-            if b is None or (v.get("size", 0), json.dumps(_jsonable(v["witness"]), sort_keys=True)) < (
-                b.get("size", 0),
-                json.dumps(_jsonable(b["witness"]), sort_keys=True),
-            ):
-                g["best"] = v
-
-    work = [(CHECKS[prop], units[i]) for i in order]
-    if jobs == 1:
-        for w in work:
-            absorb(_worker(w))
-    else:
-        ctx = multiprocessing.get_context("fork")
-        with ctx.Pool(jobs) as pool:
-            for res in pool.imap_unordered(_worker, work, chunksize=1):
-                absorb(res)
-
-    if crashes:
-        print("INTERNAL %d work unit(s) crashed in the harness; first:" % len(crashes))
-        print(crashes[0]["crash"])
-        print("unit:", json.dumps(_jsonable(crashes[0]["unit"]))[:500])
-        return 2
-
-    # ---- violations: write replay files, confirm, match against known findings
-    known = load_known(prop)
-    open_known = {(e["clause"], e["sig"]): e for e in known if e.get("status") == "open"}
-    os.makedirs(os.path.join(OUT, "violations"), exist_ok=True)
-    new_groups = []
-    known_hits = {}
-    internal = []
-    for (clause, sig), g in sorted(groups.items(), key=lambda kv: (kv[0][0], str(kv[0][1]))):
-        v = g["best"]
-        path = os.path.join(OUT, "violations", "%s-%s.json" % (prop, _sig_hash(clause, sig)))
-        rec = {
-            "property": prop,
-            "clause": clause,
-            "sig": sig,
-            "witness": v["witness"],
-            "expected": v.get("expected"),
-            "observed": v.get("observed"),
-            "occurrences_in_this_run": g["count"],
-            "repro_py": v.get("repro"),
-            "replay": "./vcheck %s --replay %s" % (prop, path),
+    def one_pass(isolated):
+        merged = {
+            "evals": 0,
+            "nontrivial": 0,
+            "nontrivial_keys": set(),
+            "outcomes": collections.Counter(),
+            "states": 0,
+            "state_keys": set(),
+            "transitions": 0,
+            "traces": 0,
+            "max_depth": 0,
+            "samples": [],
+            "extra": collections.Counter(),
+            "capped": False,
         }
-        with open(path, "w") as f:
-            json.dump(_jsonable(rec), f, indent=1)
-        g["path"] = path
-        if (clause, sig) in open_known:
-            known_hits[(clause, sig)] = g
-        else:
-            new_groups.append(((clause, sig), g))
+        groups = {}  # (clause, sig) -> {"count", "best"}
+        crashes = []
 
-    # confirm (at most the first 6 unknown groups are replayed; all are counted)
-    reported = []
-    for (clause, sig), g in new_groups[:6]:
-        ok, seen = confirm_by_replay(prop, g["path"], clause, sig)
-        if ok:
-            reported.append(((clause, sig), g))
+        def absorb(res):
+            if "crash" in res:
+                crashes.append(res)
+                return
+            merged["evals"] += res.get("evals", 0)
+            nt = res.get("nontrivial", 0)
+            if isinstance(nt, (set, frozenset, list)):
+                merged["nontrivial_keys"].update(nt)
+            else:
+                merged["nontrivial"] += nt
+            merged["outcomes"].update(res.get("outcomes", {}))
+            st = res.get("states", 0)
+            if isinstance(st, (set, frozenset, list)):
+                merged["state_keys"].update(st)
+            else:
+                merged["states"] += st
+            merged["transitions"] += res.get("transitions", 0)
+            merged["traces"] += res.get("traces", 0)
+            merged["max_depth"] = max(merged["max_depth"], res.get("max_depth", 0))
+            merged["extra"].update(res.get("extra", {}))
+            merged["capped"] = merged["capped"] or bool(res.get("capped"))
+            if len(merged["samples"]) < 400:
+                merged["samples"].extend(res.get("samples", [])[:3])
+            for v in res.get("violations", []):
+                key = (v["clause"], v.get("sig") or "unclassified")
+                g = groups.setdefault(key, {"count": 0, "best": None})
+                g["count"] += v.get("count", 1)
+                b = g["best"]
+                if b is None or (v.get("size", 0), json.dumps(_jsonable(v["witness"]), sort_keys=True)) < (
+                    b.get("size", 0),
+                    json.dumps(_jsonable(b["witness"]), sort_keys=True),
+                ):
+                    g["best"] = v
+
+        work = [(CHECKS[prop], units[i]) for i in order]
+        if jobs == 1:
+            for w in work:
+                absorb(_worker(w))
         else:
-            internal.append(((clause, sig), g, seen))
-    reported.extend(new_groups[6:])
+            ctx = multiprocessing.get_context("fork")
+            # isolated pass: one fresh fork of this (clean) process per work unit, so that state a unit leaves
+            # behind in module-level variables of lasio can never influence another unit
+            with ctx.Pool(jobs, maxtasksperchild=1 if isolated else None) as pool:
+                for res in pool.imap_unordered(_worker, work, chunksize=1):
+                    absorb(res)
+
+        if crashes:
+            print("INTERNAL %d work unit(s) crashed in the harness; first:" % len(crashes))
+            print(crashes[0]["crash"])
+            print("unit:", json.dumps(_jsonable(crashes[0]["unit"]))[:500])
+            return None
+
+        # ---- violations: write replay files, confirm, match against known findings
+        known = load_known(prop)
+        open_known = {(e["clause"], e["sig"]): e for e in known if e.get("status") == "open"}
+        os.makedirs(os.path.join(OUT, "violations"), exist_ok=True)
+        new_groups = []
+        known_hits = {}
+        internal = []
+        for (clause, sig), g in sorted(groups.items(), key=lambda kv: (kv[0][0], str(kv[0][1]))):
+            v = g["best"]
+            path = os.path.join(OUT, "violations", "%s-%s.json" % (prop, _sig_hash(clause, sig)))
+            rec = {
+                "property": prop,
+                "clause": clause,
+                "sig": sig,
+                "witness": v["witness"],
+                "expected": v.get("expected"),
+                "observed": v.get("observed"),
+                "occurrences_in_this_run": g["count"],
+                "unit": v.get("unit"),
+                "repro_py": v.get("repro"),
+                "replay": "./vcheck %s --replay %s" % (prop, path),
+            }
+            with open(path, "w") as f:
+                json.dump(_jsonable(rec), f, indent=1)
+            g["path"] = path
+            if (clause, sig) in open_known:
+                known_hits[(clause, sig)] = g
+            else:
+                new_groups.append(((clause, sig), g))
+
+        # confirm (at most the first 6 unknown groups are replayed; all are counted)
+        reported = []
+        for (clause, sig), g in new_groups[:6]:
+            ok, seen = confirm_by_replay(prop, g["path"], clause, sig)
+            if ok:
+                reported.append(((clause, sig), g))
+            else:
+                internal.append(((clause, sig), g, seen))
+        reported.extend(new_groups[6:])
+
+        return merged, groups, known_hits, open_known, reported, internal
+
+    # First pass with long-lived workers (fast).  If a violation reproduces neither from its witness nor
+    # from its work unit in a fresh interpreter, state may have been carried from one unit to the next
+    # inside a worker: the whole exploration is repeated with one fresh process per unit before judging.
+    result = one_pass(False)
+    if result is not None and result[5]:
+        print("note: %d violation group(s) did not reproduce in isolation; repeating the exploration with one process per work unit"
+              % len(result[5]))
+        result = one_pass(True)
+    if result is None:
+        return 2
+    merged, groups, known_hits, open_known, reported, internal = result
 
     nontrivial = merged["nontrivial"] + len(merged["nontrivial_keys"])
     states = merged["states"] + len(merged["state_keys"])
